@@ -5,6 +5,8 @@ import (
 	"math/rand/v2"
 
 	"k8s.io/apimachinery/pkg/types"
+
+	edsv1 "github.com/DataDog/extendeddaemonset/api/v1alpha1"
 )
 
 type histOpts struct {
@@ -199,7 +201,7 @@ func genC07(r *rand.Rand, tier string, idx int) *World {
 	w.Extra["failSteps"] = pick(r, "20", "40", "80")
 	c := w.EDS[0].Strategy.Canary
 	if c.Duration != "" {
-		c.Duration = pick(r, "1m", "10m", "10m", "30m")
+		c.Duration = pick(r, "1m", "3m", "10m", "10m")
 	}
 	c.AutoFailEnabled = bptr(true)
 	c.AutoFailMaxRestarts = i32(pick(r, int32(2), 3))
@@ -260,4 +262,257 @@ func init() {
 	register(&Profile{Name: "C07", Decide: []string{"C07"}, Quick: 1500, Thorough: 80000, Gen: genC07, Body: bodyC07,
 		NonVacuous: []string{"C07.rollback", "C07.failed-canary", "C07.retention"}, Chunk: 50,
 		Rule: "Histories that end in a Canary-Failed replica set (kubectl-eds canary fail, with or without a preceding pause, or a kubelet restart storm; before or after the duration elapsed), followed by a phase in which API faults and crashes are biased onto the ExtendedDaemonSet reconciler's status write and the following spec write (reject, lost reply, crash before, crash after), then fair fault-free reconcile rounds. " + histRule})
+}
+
+// ---------------------------------------------------------------------------------------
+// C10: pod shape, stability and sensitivity.
+
+func genC10(r *rand.Rand, tier string, idx int) *World {
+	o := histOpts{maxNodes: 5, pCanary: 0.2, fancy: []float64{0.3, 0.7, 1}, faults: idx%2 == 1, c02: true, overrides: true}
+	if tier == "thorough" {
+		o.maxNodes = 10
+	}
+	w := genHistory(r, tier, o)
+	w.Extra["c02prop"] = "C10"
+	w.Extra["c10"] = "1"
+	w.Cfg.SettingEdits = true
+	w.Cfg.EDSDelete = false
+	w.Cfg.PCrash, w.Cfg.PLost = 0, 0
+	nset := r.IntN(3)
+	for i := 0; i < nset; i++ {
+		sd := &SettingDef{NS: "ns1", Name: fmt.Sprintf("set%d", i), Ref: "foo", Container: pick(r, "main", "main", "side"), Cpu: pick(r, "500m", "600m"), AgeSec: pick(r, -1, 0, 30, 60)}
+		switch r.IntN(3) {
+		case 0:
+			sd.Selector = map[string]string{"big": "1"}
+		case 1:
+			sd.Selector = map[string]string{"zone": pick(r, "a", "b")}
+		case 2:
+			sd.ExprKey, sd.ExprOp, sd.ExprVals = "pool", "In", []string{pick(r, "x", "y")}
+		}
+		w.Settings = append(w.Settings, sd)
+	}
+	// perturbations of malformed overrides are part of the admin vocabulary via Extra
+	w.Extra["malformed"] = pick(r, "0", "1")
+	return w
+}
+
+func init() {
+	register(&Profile{Name: "C10", Decide: []string{"C10"}, Quick: 1500, Thorough: 80000, Gen: genC10,
+		NonVacuous: []string{"C10.create", "C10.converged"}, Chunk: 50,
+		Rule: "Templates with/without affinity (several terms), node selectors, tolerations, 1-2 containers, resources; nodes with labels and well-formed or malformed resource-override annotations; 0-2 ExtendedDaemonsetSettings (valid, conflicting, edited); both node-assignment modes; single-field perturbations (template, override annotation, setting value) during the run; every pod create is judged, and at quiescence every pod must reflect the current inputs and a further round must not replace anything. " + histRule})
+}
+
+// ---------------------------------------------------------------------------------------
+// C18: setting populations.
+
+func genC18(r *rand.Rand, tier string, idx int) *World {
+	w := &World{DefaultValidationMode: "auto", Extra: map[string]string{"c18": "1"}}
+	n := 1 + r.IntN(4)
+	for i := 0; i < n; i++ {
+		nd := &NodeDef{Name: nodeName(i), Labels: map[string]string{}}
+		for _, lv := range nodeLabelVocab[:3] {
+			if chance(r, 0.6) {
+				nd.Labels[lv.k] = pick(r, lv.vs...)
+			}
+		}
+		w.Nodes = append(w.Nodes, nd)
+	}
+	w.EDS = []*EDSDef{{NS: "ns1", Name: "foo", Initial: "A", Templates: map[string]*TemplateDef{"A": {Letter: "A"}}, Strategy: StrategyDef{ReconcileFrequency: "10s", SlowStartIncrease: "5", SlowStartInterval: "10s"}}}
+	ns := 1 + r.IntN(4)
+	sameAge := chance(r, 0.3)
+	for i := 0; i < ns; i++ {
+		sd := &SettingDef{NS: "ns1", Name: fmt.Sprintf("set%d", i), Ref: "foo", Container: "main", Cpu: pick(r, "500m", "600m"), AgeSec: pick(r, 0, 10, 20, 30)}
+		if sameAge {
+			sd.AgeSec = 10
+		}
+		if chance(r, 0.12) {
+			sd.Ref = ""
+		}
+		switch r.IntN(5) {
+		case 0:
+			sd.Selector = map[string]string{"zone": pick(r, "a", "b")}
+		case 1:
+			sd.Selector = map[string]string{"pool": pick(r, "x", "y")}
+		case 2:
+			sd.ExprKey, sd.ExprOp, sd.ExprVals = "zone", pick(r, "In", "NotIn"), []string{pick(r, "a", "b")}
+		case 3:
+			sd.ExprKey, sd.ExprOp = pick(r, "canary", "pool"), pick(r, "Exists", "DoesNotExist")
+		case 4:
+			sd.Selector = map[string]string{"zone": "a", "pool": "x"}
+		}
+		if chance(r, 0.07) && w.Extra["unusable"] == "" && idx%4 == 3 {
+			sd.Selector, sd.ExprKey, sd.ExprOp, sd.ExprVals = nil, "zone", "In", nil // In with no values: unusable
+			w.Extra["unusable"] = sd.Name
+		}
+		if chance(r, 0.2) {
+			sd.AgeSec = -1 // created later by the user
+		}
+		w.Settings = append(w.Settings, sd)
+	}
+	w.Cfg = Config{ChaosSteps: pick(r, 10, 30, 60), Kubelet: true, SettingEdits: true, NodeChurn: chance(r, 0.4), Stall: chance(r, 0.3), MapOrder: 0}
+	if idx%2 == 1 {
+		w.Cfg.PReject = pick(r, 0.0, 0.05, 0.15)
+	}
+	return w
+}
+
+func bodyC18(s *Sim) {
+	s.Setup()
+	s.Chaos()
+	// the judged pass: every setting reconciled fault-free against one cluster state
+	r := subRng(s.Seed, "c18pass")
+	for pass := 0; pass < 2; pass++ {
+		for _, k := range s.shuffled(s.Store.Keys(KSetting), r) {
+			s.RunTask(CtrlSetting, types.NamespacedName{Namespace: k.NS, Name: k.Name})
+		}
+	}
+	for _, m := range s.Monitors {
+		m.Quiesced(s)
+	}
+}
+
+func init() {
+	register(&Profile{Name: "C18", Decide: []string{"C18"}, Quick: 4000, Thorough: 200000, Gen: genC18, Body: bodyC18,
+		NonVacuous: []string{"C18.overlap", "C18.applied"}, Chunk: 100,
+		Rule: "Populations of 1-4 ExtendedDaemonsetSettings in one namespace (equal or different creation times, selectors by labels or expressions incl. NotIn/Exists/DoesNotExist, with or without reference, occasionally an unusable selector) over 1-4 labelled nodes; setting create/edit/delete and node relabelling interleaved with setting, ExtendedDaemonSet and replica-set reconciles in seeded order, list failures injected; then a fault-free pass reconciling every setting in a PRNG order, after which the verdicts are judged; every pod create is checked for the setting it applied."})
+}
+
+// ---------------------------------------------------------------------------------------
+// C19: kubectl-eds commands as simulated clients, then the controller's interpretation.
+
+func genC19(r *rand.Rand, tier string, idx int) *World {
+	o := histOpts{maxNodes: 4, pCanary: 0.8, fancy: []float64{0}, faults: false}
+	w := genHistory(r, tier, o)
+	w.Cfg.CLI = true
+	w.Cfg.PCrash, w.Cfg.PLost, w.Cfg.PReject = 0, 0, 0
+	w.Cfg.NodeChurn = false
+	w.Cfg.EDSDelete = false
+	w.Cfg.ChaosSteps = pick(r, 20, 40, 80, 120)
+	if c := w.EDS[0].Strategy.Canary; c != nil {
+		// no promotion by time while the consequences of the commands are judged
+		mode := c.ValidationMode
+		if mode == "" {
+			mode = string(w.DefaultValidationMode)
+		}
+		if mode != "manual" {
+			c.Duration = "6h"
+		}
+		c.NoRestartsDuration = ""
+		c.CanaryTimeout = ""
+		c.NodeSelector = nil
+	}
+	w.Extra["final"] = pick(r, "canary-pause", "canary-unpause", "canary-validate", "canary-fail", "ru-pause", "freeze")
+	w.Extra["c02prop"] = "C19"
+	return w
+}
+
+func (s *Sim) fairRounds(n int) {
+	s.chaosCount++
+	r := subRng(s.Seed, fmt.Sprintf("fair%d", s.chaosCount))
+	for i := 0; i < n; i++ {
+		s.step++
+		s.Round(r)
+	}
+}
+
+func bodyC19(s *Sim) {
+	s.Setup()
+	def := s.W.EDS[0]
+	key := types.NamespacedName{Namespace: def.NS, Name: def.Name}
+	s.bootstrap(def)
+	for i := 0; i < 2+len(s.W.Nodes); i++ {
+		s.Round(s.rngEnv)
+	}
+	if s.rngEnv.IntN(4) != 0 {
+		s.userSetTemplate(def.NS, def.Name, "B")
+		s.RunTask(CtrlEDS, key)
+		s.RunTask(CtrlEDS, key)
+	}
+	s.Chaos()
+	// quiet down, then the judged command
+	s.W.Cfg.KubeletFaults = false
+	s.fairRounds(2)
+	e := s.Store.GetEDS(def.NS, def.Name)
+	if e == nil {
+		return
+	}
+	cmd := s.W.Extra["final"]
+	before := e.DeepCopy()
+	var canaryERS string
+	condPaused := false
+	if e.Status.Canary != nil {
+		canaryERS = e.Status.Canary.ReplicaSet
+		if r := s.Store.GetERS(def.NS, canaryERS); r != nil {
+			condPaused = ersCondTrue(&r.Status, edsv1.ConditionTypeCanaryPaused)
+			if ersCondTrue(&r.Status, edsv1.ConditionTypeCanaryFailed) {
+				return // already failed: rollback in flight, consequences not separable
+			}
+		}
+	}
+	t := s.RunCLI(cmd, key)
+	if t.Err != nil {
+		return
+	}
+	s.Stats.NonVacuous["C19.obeyed"]++
+	s.fairRounds(3)
+	e = s.Store.GetEDS(def.NS, def.Name)
+	if e == nil {
+		return
+	}
+	obey := func(sig, f string, a ...interface{}) {
+		s.Violate("C19", "obeys", sig, "after %s: %s", cmd, fmt.Sprintf(f, a...))
+	}
+	switch cmd {
+	case "canary-pause":
+		if e.Status.State != edsv1.ExtendedDaemonSetStatusStateCanaryPaused {
+			obey(cmd, "state is %q, expected Canary Paused", e.Status.State)
+		}
+	case "canary-unpause":
+		if !condPaused && e.Status.State != edsv1.ExtendedDaemonSetStatusStateCanary {
+			obey(cmd, "state is %q, expected Canary (the pause was a user pause)", e.Status.State)
+		}
+	case "canary-validate":
+		if e.Status.ActiveReplicaSet != canaryERS {
+			obey(cmd, "active replica set is %s, the validated canary was %s", e.Status.ActiveReplicaSet, canaryERS)
+		}
+		// a later template change must not be promoted by the old annotation
+		cur := letterOfTpl(&e.Spec.Template)
+		for _, l := range sortedKeys(def.Templates) {
+			if l != cur && s.ersByLetter(def, l) == nil {
+				s.userSetTemplate(def.NS, def.Name, l)
+				s.fairRounds(2)
+				e2 := s.Store.GetEDS(def.NS, def.Name)
+				if e2 != nil && e2.Spec.Strategy.Canary != nil && e2.Status.ActiveReplicaSet != canaryERS {
+					obey("stale-validation", "template changed to %s after the command; the new replica set %s became active although only %s was validated", l, e2.Status.ActiveReplicaSet, canaryERS)
+				}
+				break
+			}
+		}
+	case "canary-fail":
+		act := s.Store.GetERS(def.NS, before.Status.ActiveReplicaSet)
+		if e.Status.ActiveReplicaSet != before.Status.ActiveReplicaSet {
+			obey("fail-active", "active replica set changed from %s to %s", before.Status.ActiveReplicaSet, e.Status.ActiveReplicaSet)
+		} else if act != nil {
+			if e.Status.Canary != nil {
+				obey("fail-canary-block", "status.canary still set")
+			}
+			if letterOfTpl(&e.Spec.Template) != letterOfTpl(&act.Spec.Template) {
+				obey("fail-template", "spec.template is %s, active template is %s", letterOfTpl(&e.Spec.Template), letterOfTpl(&act.Spec.Template))
+			}
+		}
+	case "ru-pause":
+		if e.Status.State != edsv1.ExtendedDaemonSetStatusStateRollingUpdatePaused && !annTrue(e.Annotations, edsv1.ExtendedDaemonSetRolloutFrozenAnnotationKey) && e.Status.Canary == nil && e.Spec.Strategy.Canary == nil {
+			obey(cmd, "state is %q, expected RollingUpdate Paused", e.Status.State)
+		}
+	case "freeze":
+		if e.Status.State != edsv1.ExtendedDaemonSetStatusStateRolloutFrozen && e.Status.Canary == nil && e.Spec.Strategy.Canary == nil {
+			obey(cmd, "state is %q, expected Rollout frozen", e.Status.State)
+		}
+	}
+}
+
+func init() {
+	register(&Profile{Name: "C19", Decide: []string{"C19"}, Quick: 1500, Thorough: 80000, Gen: genC19, Body: bodyC19,
+		NonVacuous: []string{"C19.command", "C19.obeyed"}, Chunk: 50,
+		Rule: "ExtendedDaemonSet states {no canary, canary running, auto-paused, user-paused, failed, mid rolling update} reached by seeded history with the real kubectl-eds command bodies running as simulated clients whose Get and Patch/Update interleave with reconciles; every command's write set and refusal is judged; then one final command followed by fair reconciles, after which the controller's interpretation (state, promotion of exactly the validated replica set, rollback) is judged. " + histRule})
 }
